@@ -185,7 +185,7 @@ func (r *Runner) monC11(s *Step) {
 					// affinity above a failed memory offer, so whether it can be (re-)allocated depends on where its
 					// siblings were put first - the reference run may succeed where the restarted plugin did not
 					sg += ":memory-type-restricted"
-				} else if cr, ok := r.cacheRes(c.ID); s.Stale && ok && cr.Shares != c.Shadow.Shares {
+				} else if s.Stale && r.cachedCPURequestDiffers(c) {
 					// KF7: the stale cache's (older, different) CPU request of this container was kept instead of
 					// what the runtime reports, and that older request does not fit any more
 					sg += ":stale-requirements"
@@ -465,4 +465,23 @@ func Guard2(fn func()) (p string, site string) {
 	}()
 	fn()
 	return "", ""
+}
+
+// cachedCPURequestDiffers: the CPU request the cache holds for the container (requirements, or the last resource update)
+// is not the one the runtime has (KF7: a stale cache keeps its older requirements for containers it already knows).
+func (r *Runner) cachedCPURequestDiffers(c *MCtr) bool {
+	cc, ok := r.Inst.RM.Cache().LookupContainer(c.ID)
+	if !ok {
+		return false
+	}
+	res, upd := cc.GetResourceUpdates()
+	if !upd {
+		res = cc.GetResourceRequirements()
+	}
+	q, ok := res.Requests["cpu"]
+	if !ok {
+		return c.ReqMilli > 2
+	}
+	d := int(q.MilliValue()) - c.ReqMilli
+	return d > 2 || d < -2
 }
